@@ -359,8 +359,10 @@ def gen_reply(rng: random.Random, v: int, reqtype: int, reqid: int) -> bytes:
     return sftp_frame(rng, bytes([t]) + mutate_fields(rng, f))
 
 
-def hostile_sftp_session(seed: str) -> Any:
-    """session_factory of a server whose 'sftp' subsystem answers every request with a hostile reply"""
+def hostile_sftp_session(seed: str, script: Optional[List[Tuple[int, bytes]]] = None) -> Any:
+    """session_factory of a server whose 'sftp' subsystem answers every request with a hostile reply.
+    With `script`, the n-th request is answered by (type, body): the VERSION reply is type+body, every other
+    reply is type + the request's id + body."""
 
     class Hostile(asyncssh.SSHServerSession):
         def __init__(self) -> None:
@@ -394,6 +396,12 @@ def hostile_sftp_session(seed: str) -> Any:
                 del self.buf[:4 + ln]
                 self.replies += 1
                 try:
+                    if script is not None:
+                        if self.replies - 1 < len(script):
+                            t, body = script[self.replies - 1]
+                            pkt = bytes([t]) + (b'' if self.replies == 1 else req[1:5]) + body
+                            self.chan.write(u32(len(pkt)) + pkt)
+                        continue
                     if not self.started:
                         self.started = True
                         want_v = int.from_bytes(req[1:5], 'big') if len(req) >= 5 else 3
@@ -422,9 +430,11 @@ def hostile_sftp_session(seed: str) -> Any:
 SFTP_OK = (sftpmod.SFTPError, asyncssh.Error, asyncio.TimeoutError, OSError, EOFError)
 
 
-async def sftp_client_case(seed: str) -> Dict[str, Any]:
+async def sftp_client_case(seed: str, script: Optional[List[Tuple[int, bytes]]] = None,
+                           ops_fixed: Optional[List[str]] = None) -> Dict[str, Any]:
     rng = random.Random(seed)
-    case = await C.setup_enc('client', 'post-auth-open', raw_session=hostile_sftp_session(seed), server_opts=dict(encoding=None))
+    case = await C.setup_enc('client', 'post-auth-open', raw_session=hostile_sftp_session(seed, script),
+                             server_opts=dict(encoding=None))
     o: Dict[str, Any] = {'label': 'sftp client vs hostile server', 'phase': 'sftp-client', 'role': 'client',
                          'kind': 'sftp-client', 'case_seed': seed}
     try:
@@ -436,7 +446,7 @@ async def sftp_client_case(seed: str) -> Dict[str, Any]:
         case.arm_output_budget(4096)
         with C.Watch(8.0) as w:
             try:
-                sftp = await asyncio.wait_for(c.start_sftp_client(sftp_version=rng.choice([3, 4, 5, 6])), 0.4)
+                sftp = await asyncio.wait_for(c.start_sftp_client(sftp_version=3 if script is not None else rng.choice([3, 4, 5, 6])), 0.4)
             except SFTP_OK as e:
                 ops.append('start:' + type(e).__name__)
                 sftp = None
@@ -447,7 +457,7 @@ async def sftp_client_case(seed: str) -> Dict[str, Any]:
                 undocumented.append(('start_sftp_client', type(e).__name__ + ':' + C.exc_where(e)))
                 sftp = None
             if sftp is not None:
-                for opname in rng.sample(['stat', 'listdir', 'read', 'realpath', 'readlink', 'statvfs', 'mkdir', 'rename'], 4):
+                for opname in (ops_fixed if ops_fixed is not None else rng.sample(['stat', 'listdir', 'read', 'realpath', 'readlink', 'statvfs', 'mkdir', 'rename'], 4)):
                     w.rearm()
                     try:
                         if opname == 'stat':
